@@ -495,7 +495,7 @@ theorem typedA {env : Env} {file : AFile} {G : List String} {c : TCtx} {D : Name
     ∀ (e : AExpr) (m : Mode) (st : St) (Γ : Ctx) (K : KCtx) (s : Scp), fragA env file G Γ K e = true → stdA e = true →
       TScp s Γ → SCtx file G D (skeys s) Γ (calleesA (Γ.map (·.1)) e) → DeclOK D (skeys s) (compileA env m st e).1 → TgtSc m Γ (skeys s) →
       TgtTy m s (aTy e) →
-      ∃ Dl, seqOK c ret s (compileA env m st e).1 (Dl ++ s) ∧ ∀ y, y ∈ skeys Dl → y ∈ ndDecls (compileA env m st e).1
+      ∃ Dl, seqOK c ret s (compileA env m st e).1 (Dl ++ s) ∧ ∀ y, y ∈ skeys Dl → y ∈ topDecls (compileA env m st e).1
   | .ret c0, m, st, Γ, K, s, hfrag, hstd, hsc, hctx, hdecl, htgt, htt => by
     simp only [compileA, fragA, calleesA, stdA, aTy] at *
     exact typedC hl c0 m st Γ K s hfrag hstd hsc hctx hdecl htgt htt
@@ -508,15 +508,13 @@ theorem typedA {env : Env} {file : AFile} {G : List String} {c : TCtx} {D : Name
     rw [compileA_let] at hdecl ⊢
     have hctxv : SCtx file G D (skeys s) Γ (calleesC (Γ.map (·.1)) v) := hctx.mono_cs (fun f hf => by simp [calleesA, hf])
     have hctxb : SCtx file G D (skeys s) Γ (calleesA (x :: Γ.map (·.1)) body) := hctx.mono_cs (fun f hf => by simp [calleesA, hf])
-    have hda := hdecl.1; rw [ndDecls_append] at hda
-    obtain ⟨hndP, hndR, hdisj⟩ := List.nodup_append.mp hda
+    obtain ⟨hdP, hdR⟩ := hdecl.append
     have hT : cexprTy env v = goTy v.annTy := by simp [cexprTy, cexprTastTy_frag hfv]
     by_cases hctl : isCtl v = true
-    · simp only [letPrefix, letBodySt, hctl, if_true, hT] at hdecl hndP hndR hdisj ⊢
+    · simp only [letPrefix, letBodySt, hctl, if_true, hT] at hdP hdR ⊢
       generalize hd : compileTail env (.assign (rn x)) (st.check (okTy (cexprTastTy env v))) v = d at *
-      have hxin := hdecl.2 (vn x) (by rw [ndDecls_append, ndDecls_varDecl]; simp)
-      rw [ndDecls_varDecl] at hndP
-      obtain ⟨hxnd, hndd⟩ := List.nodup_cons.mp hndP
+      obtain ⟨hxin, hdecl1'⟩ := hdP.varDecl
+      rw [scopeAfter_varDecl] at hdR
       -- `var x T`
       have h1 := stmt_varDecl_none_ok c ret s (vn x) hsvt
       -- the statements that assign it
@@ -526,14 +524,7 @@ theorem typedA {env : Env} {file : AFile} {G : List String} {c : TCtx} {D : Name
         simp only [skeys, List.map_cons, List.map_nil, List.mem_singleton] at hy; subst hy; exact hxin.1
       have hsc1 : TScp ((vn x, goTy v.annTy) :: s) Γ := TScp.extend (Dl := [(vn x, goTy v.annTy)]) hsc hctxv hfresh1
       have hctx1 : SCtx file G D (skeys ((vn x, goTy v.annTy) :: s)) Γ (calleesC (Γ.map (·.1)) v) := hctxv.extend hnew1
-      have hdecl1 : DeclOK D (skeys ((vn x, goTy v.annTy) :: s)) d.1 :=
-        ⟨hndd, fun y hy => by
-          have := hdecl.2 y (by rw [ndDecls_append, ndDecls_varDecl]; simp [hy])
-          refine ⟨fun h => ?_, this.2⟩
-          simp only [skeys, List.map_cons, List.mem_cons] at h
-          rcases h with rfl | h
-          · exact hxnd hy
-          · exact this.1 h⟩
+      have hdecl1 : DeclOK D (skeys ((vn x, goTy v.annTy) :: s)) d.1 := hdecl1'
       have htgt1 : TgtSc (.assign (rn x)) Γ (skeys ((vn x, goTy v.annTy) :: s)) := by
         refine ⟨by rw [← vn_def]; simp [skeys], fun y ty hy => ?_⟩
         rw [← vn_def]; exact fun e => hxin.1 (e ▸ hctxv.vars y ty hy)
@@ -544,9 +535,9 @@ theorem typedA {env : Env} {file : AFile} {G : List String} {c : TCtx} {D : Name
         (hd ▸ hdecl1) htgt1 htt1
       rw [hd] at hseq1 hk1
       -- the body
-      have hk1D : ∀ y, y ∈ skeys Dl1 → y ∈ D ∧ y ≠ "_" := fun y hy => (hdecl1.2 y (hk1 y hy)).2
-      have hk1fresh : ∀ y, y ∈ skeys Dl1 → ¬ y ∈ skeys ((vn x, goTy v.annTy) :: s) := fun y hy => (hdecl1.2 y (hk1 y hy)).1
-      have hxDl1 : ¬ vn x ∈ skeys Dl1 := fun h => hxnd (hk1 _ h)
+      have hk1D : ∀ y, y ∈ skeys Dl1 → y ∈ D ∧ y ≠ "_" := fun y hy => (hdecl1.top y (hk1 y hy)).2
+      have hk1fresh : ∀ y, y ∈ skeys Dl1 → ¬ y ∈ skeys ((vn x, goTy v.annTy) :: s) := fun y hy => (hdecl1.top y (hk1 y hy)).1
+      have hxDl1 : ¬ vn x ∈ skeys Dl1 := fun h => hk1fresh _ h (by simp [skeys])
       let s2 : Scp := Dl1 ++ (vn x, goTy v.annTy) :: s
       have hlx : lookupS s2 (vn x) = some (goTy v.annTy) := by
         simp only [s2]; rw [lookupS_append_right hxDl1]; exact lookupS_cons_self _ _ _
@@ -556,16 +547,13 @@ theorem typedA {env : Env} {file : AFile} {G : List String} {c : TCtx} {D : Name
         rw [hks2]
         have hb1 : SCtx file G D (skeys ((vn x, goTy v.annTy) :: s)) Γ (calleesA (x :: Γ.map (·.1)) body) := hctxb.extend hnew1
         exact (hb1.extend hk1D).letvar (List.mem_append_right _ List.mem_cons_self) _
-      have hdecl2 : DeclOK D (skeys s2) (compileA env m d.2 body).1 :=
-        ⟨hndR, fun y hy => by
-          have := hdecl.2 y (by rw [ndDecls_append]; exact List.mem_append_right _ hy)
-          refine ⟨fun h => ?_, this.2⟩
-          rw [hks2] at h
-          rcases List.mem_append.mp h with h | h
-          · exact hdisj _ (by rw [ndDecls_varDecl]; exact List.mem_cons_of_mem _ (hk1 _ h)) _ hy rfl
-          · rcases List.mem_cons.mp h with rfl | h
-            · exact hdisj _ (by rw [ndDecls_varDecl]; exact List.mem_cons_self) _ hy rfl
-            · exact this.1 h⟩
+      have hdecl2 : DeclOK D (skeys s2) (compileA env m d.2 body).1 := by
+        refine sokB_anti _ (fun y h => ?_) hdR
+        rw [hks2] at h
+        rw [scopeAfter_mem]
+        rcases List.mem_append.mp h with h | h
+        · exact Or.inr (hk1 _ h)
+        · exact Or.inl h
       have hxt : ∀ t', m = .assign t' → vn x ≠ gid t' := fun t' ht' e => by
         subst ht'; exact hxin.1 (e ▸ htgt.1)
       have htgt2 : TgtSc m ((x, v.annTy) :: Γ) (skeys s2) := by
@@ -579,15 +567,16 @@ theorem typedA {env : Env} {file : AFile} {G : List String} {c : TCtx} {D : Name
       · have hall : seqOK c ret s (GStmt.varDecl (vn x) (goTy v.annTy) none :: d.1) s2 := ⟨_, h1, hseq1⟩
         have := seqOK_append hall hseq2
         simpa [s2, List.append_assoc] using this
-      · rw [ndDecls_append, ndDecls_varDecl]
+      · rw [topDecls_append]
         simp only [skeys, List.map_append, List.mem_append, List.map_cons, List.map_nil, List.mem_singleton] at hy
         rcases hy with (hy | hy) | hy
         · exact List.mem_append_right _ (hk2 y hy)
-        · exact List.mem_append_left _ (List.mem_cons_of_mem _ (hk1 y hy))
-        · subst hy; exact List.mem_append_left _ List.mem_cons_self
+        · exact List.mem_append_left _ (by simp only [topDecls]; exact List.mem_cons_of_mem _ (hk1 y hy))
+        · subst hy; exact List.mem_append_left _ (by simp only [topDecls]; exact List.mem_cons_self)
     · have hctl' : isCtl v = false := by simpa using hctl
-      simp only [letPrefix, letBodySt, hctl', Bool.false_eq_true, if_false, bindSimple_shape x hfv (by cases v <;> first | rfl | simp [stdC] at hsv)] at hdecl hndP hndR hdisj ⊢
-      have hxin := hdecl.2 (vn x) (by rw [ndDecls_append, ndDecls_varDecl]; simp)
+      simp only [letPrefix, letBodySt, hctl', Bool.false_eq_true, if_false, bindSimple_shape x hfv (by cases v <;> first | rfl | simp [stdC] at hsv)] at hdP hdR ⊢
+      obtain ⟨hxin, -⟩ := hdP.varDecl
+      rw [scopeAfter_varDecl] at hdR
       obtain ⟨hty, _⟩ := typed_cexpr (c := c) hctl' hfv hsv hsc hctxv hl
       have h1 := stmt_varDecl_some_ok c ret s (vn x) hsvt hty (isNilLit_simple hsv hctl' hfv).1
       have hnew1 : ∀ y, y ∈ [vn x] → y ∈ D ∧ y ≠ "_" := fun y hy => by
@@ -599,14 +588,7 @@ theorem typedA {env : Env} {file : AFile} {G : List String} {c : TCtx} {D : Name
         (TScp.extend (Dl := [(vn x, goTy v.annTy)]) hsc hctxv hfresh1).letvar (lookupS_cons_self _ _ _)
       have hctx2 : SCtx file G D (skeys s2) ((x, v.annTy) :: Γ) (calleesA (x :: Γ.map (·.1)) body) :=
         (hctxb.extend hnew1).letvar (by simp [s2, skeys]) _
-      have hdecl2 : DeclOK D (skeys s2) (compileA env m (st.check (okBindSimple env v)) body).1 :=
-        ⟨hndR, fun y hy => by
-          have := hdecl.2 y (by rw [ndDecls_append]; exact List.mem_append_right _ hy)
-          refine ⟨fun h => ?_, this.2⟩
-          simp only [s2, skeys, List.map_cons, List.mem_cons] at h
-          rcases h with rfl | h
-          · exact hdisj _ (by rw [ndDecls_varDecl]; exact List.mem_cons_self) _ hy rfl
-          · exact this.1 h⟩
+      have hdecl2 : DeclOK D (skeys s2) (compileA env m (st.check (okBindSimple env v)) body).1 := hdR
       have hxt : ∀ t', m = .assign t' → vn x ≠ gid t' := fun t' ht' e => by
         subst ht'; exact hxin.1 (e ▸ htgt.1)
       have htgt2 : TgtSc m ((x, v.annTy) :: Γ) (skeys s2) := (htgt.extend [vn x]).letvar _ hxt
@@ -616,16 +598,16 @@ theorem typedA {env : Env} {file : AFile} {G : List String} {c : TCtx} {D : Name
       · have hall : seqOK c ret s [GStmt.varDecl (vn x) (goTy v.annTy) (some (compileCExpr env v))] s2 := ⟨_, h1, rfl⟩
         have := seqOK_append hall hseq2
         simpa [s2, List.append_assoc] using this
-      · rw [ndDecls_append, ndDecls_varDecl]
+      · rw [topDecls_append]
         simp only [skeys, List.map_append, List.mem_append, List.map_cons, List.map_nil, List.mem_singleton] at hy
         rcases hy with hy | hy
         · exact List.mem_append_right _ (hk2 y hy)
-        · subst hy; exact List.mem_append_left _ List.mem_cons_self
+        · subst hy; exact List.mem_append_left _ (by simp [topDecls])
 theorem typedC {env : Env} {file : AFile} {G : List String} {c : TCtx} {D : Names} {ret : Option GTy} (hl : TLink file G c) :
     ∀ (e : CExpr) (m : Mode) (st : St) (Γ : Ctx) (K : KCtx) (s : Scp), fragC env file G Γ K e = true → stdC e = true →
       TScp s Γ → SCtx file G D (skeys s) Γ (calleesC (Γ.map (·.1)) e) → DeclOK D (skeys s) (compileTail env m st e).1 → TgtSc m Γ (skeys s) →
       TgtTy m s e.annTy →
-      ∃ Dl, seqOK c ret s (compileTail env m st e).1 (Dl ++ s) ∧ ∀ y, y ∈ skeys Dl → y ∈ ndDecls (compileTail env m st e).1
+      ∃ Dl, seqOK c ret s (compileTail env m st e).1 (Dl ++ s) ∧ ∀ y, y ∈ skeys Dl → y ∈ topDecls (compileTail env m st e).1
   | .ite c0 t e ty, m, st, Γ, K, s, hfrag, hstd, hsc, hctx, hdecl, htgt, htt => by
     simp only [fragC, Bool.and_eq_true] at hfrag
     simp only [stdC, Bool.and_eq_true] at hstd
@@ -635,12 +617,15 @@ theorem typedC {env : Env} {file : AFile} {G : List String} {c : TCtx} {D : Name
     simp only [CExpr.annTy] at htt
     have hcty := typed_imm (c := c) hc hsc0 hsc
     rw [scalarEq_eq hcb] at hcty
+    have hdI : DeclOK D (skeys s) (compileA env m (st.check (okImm env c0)) t).1 ∧
+        DeclOK D (skeys s) (compileA env m (compileA env m (st.check (okImm env c0)) t).2 e).1 := by
+      simpa only [DeclOK, sokB, sokStmtB, Bool.and_eq_true, Bool.and_true] using hdecl
     obtain ⟨Dt, hseqt, _⟩ := typedA (ret := ret) hl t m (st.check (okImm env c0)) Γ K s hft hst hsc
       (hctx.mono_cs (fun f hf => by simp [calleesC, hf]))
-      (hdecl.sub (by rw [ndDecls_ite]; exact List.sublist_append_left _ _)) htgt (by rw [scalarEq_eq htyt]; exact htt)
+      hdI.1 htgt (by rw [scalarEq_eq htyt]; exact htt)
     obtain ⟨De, hseqe, _⟩ := typedA (ret := ret) hl e m (compileA env m (st.check (okImm env c0)) t).2 Γ K s hfe hse hsc
       (hctx.mono_cs (fun f hf => by simp [calleesC, hf]))
-      (hdecl.sub (by rw [ndDecls_ite]; exact List.sublist_append_right _ _)) htgt (by rw [scalarEq_eq htye]; exact htt)
+      hdI.2 htgt (by rw [scalarEq_eq htye]; exact htt)
     refine ⟨[], ⟨s, ?_, rfl⟩, fun y hy => by simp [skeys] at hy⟩
     simp only [stmtOKT, hcty, R.bind, goTy, tyEqT, normT, tyBeqG, R.guard, if_true, block_of_seq hseqt, block_of_seq hseqe, R.both]
   | .while c0 b ty, m, st, Γ, K, s, hfrag, hstd, hsc, hctx, hdecl, htgt, htt => by
@@ -656,17 +641,15 @@ theorem typedC {env : Env} {file : AFile} {G : List String} {c : TCtx} {D : Name
     simp only [loopBody] at hdecl ⊢
     generalize hA : compileA env (.assign cv) st' c0 = rA at *
     generalize hB : compileA env .effect rA.2 b = rB at *
-    have hdeclS := tail_while_decls (gid cv) (rA.1 ++ [GStmt.ite (.un .not .bool (.var (gid cv) .bool)) [.brk] none] ++ rB.1) m
-    have hcvin := hdecl.2 (gid cv) (by rw [hdeclS]; exact List.mem_cons_self)
-    have hnd := hdecl.1; rw [hdeclS] at hnd
-    obtain ⟨hcvnd, hndB⟩ := List.nodup_cons.mp hnd
-    have hall : ndDecls (rA.1 ++ [GStmt.ite (.un .not .bool (.var (gid cv) .bool)) [.brk] none] ++ rB.1) =
-        ndDecls rA.1 ++ ndDecls rB.1 := by
-      simp [ndDecls_append, ndDecls, ndDeclsOf]
-    rw [hall] at hndB hcvnd
-    obtain ⟨hndA, hndBB, hdisjAB⟩ := List.nodup_append.mp hndB
-    have hin : ∀ y, y ∈ ndDecls rA.1 ++ ndDecls rB.1 → ¬ y ∈ skeys s ∧ y ∈ D ∧ y ≠ "_" := fun y hy =>
-      hdecl.2 y (by rw [hdeclS, hall]; exact List.mem_cons_of_mem _ hy)
+    have hdeclS := tail_while_top (gid cv) (rA.1 ++ [GStmt.ite (.un .not .bool (.var (gid cv) .bool)) [.brk] none] ++ rB.1) m
+    obtain ⟨hdW, -⟩ := hdecl.append
+    obtain ⟨hcvin, hdL⟩ := hdW.varDecl
+    have hdL' : DeclOK D (gid cv :: skeys s) (rA.1 ++ ([GStmt.ite (.un .not .bool (.var (gid cv) .bool)) [.brk] none] ++ rB.1)) := by
+      simpa only [DeclOK, sokB, sokStmtB, Bool.and_true, List.append_assoc] using hdL
+    obtain ⟨hdeclA', hdL2⟩ := hdL'.append
+    obtain ⟨-, hdeclB'⟩ := hdL2.append
+    have hsaI : ∀ K', scopeAfter [GStmt.ite (.un .not .bool (.var (gid cv) .bool)) [.brk] none] K' = K' := fun _ => rfl
+    rw [hsaI] at hdeclB'
     -- `var cond bool`
     have hb : stdTy .bool = true := rfl
     have h1 : stmtOKT c ret s (.varDecl (gid cv) .bool none) = .ok ((gid cv, .bool) :: s) := by
@@ -679,14 +662,7 @@ theorem typedC {env : Env} {file : AFile} {G : List String} {c : TCtx} {D : Name
     have hctxc : SCtx file G D (skeys s) Γ (calleesA (Γ.map (·.1)) c0) := hctx.mono_cs (fun f hf => by simp [calleesC, hf])
     have hctxb : SCtx file G D (skeys s) Γ (calleesA (Γ.map (·.1)) b) := hctx.mono_cs (fun f hf => by simp [calleesC, hf])
     have hsc1 : TScp s1 Γ := TScp.extend (Dl := [(gid cv, GTy.bool)]) hsc hctxc hfresh1
-    have hdeclA : DeclOK D (skeys s1) rA.1 :=
-      ⟨hndA, fun y hy => by
-        have := hin y (List.mem_append_left _ hy)
-        refine ⟨fun h => ?_, this.2⟩
-        simp only [s1, skeys, List.map_cons, List.mem_cons] at h
-        rcases h with rfl | h
-        · exact hcvnd (List.mem_append_left _ hy)
-        · exact this.1 h⟩
+    have hdeclA : DeclOK D (skeys s1) rA.1 := hdeclA'
     have htgtA : TgtSc (.assign cv) Γ (skeys s1) :=
       ⟨by simp [s1, skeys], fun y ty hy e => hcvin.1 (e ▸ hctx.vars y ty hy)⟩
     have httA : TgtTy (.assign cv) s1 (aTy c0) := by
@@ -695,10 +671,10 @@ theorem typedC {env : Env} {file : AFile} {G : List String} {c : TCtx} {D : Name
     obtain ⟨DA, hseqA, hkA⟩ := typedA (ret := ret) hl c0 (.assign cv) st' Γ K s1 hfc hsc0 hsc1 (hctxc.extend hnew1) (hA ▸ hdeclA) htgtA httA
     rw [hA] at hseqA hkA
     -- `if !cond { break }` and the body, in the scope after the condition
-    have hkAD : ∀ y, y ∈ skeys DA → y ∈ D ∧ y ≠ "_" := fun y hy => (hdeclA.2 y (hkA y hy)).2
-    have hkAfresh : ∀ y, y ∈ skeys DA → ¬ y ∈ skeys s1 := fun y hy => (hdeclA.2 y (hkA y hy)).1
+    have hkAD : ∀ y, y ∈ skeys DA → y ∈ D ∧ y ≠ "_" := fun y hy => (hdeclA.top y (hkA y hy)).2
+    have hkAfresh : ∀ y, y ∈ skeys DA → ¬ y ∈ skeys s1 := fun y hy => (hdeclA.top y (hkA y hy)).1
     let s2 : Scp := DA ++ s1
-    have hcvDA : ¬ gid cv ∈ skeys DA := fun h => hcvnd (List.mem_append_left _ (hkA _ h))
+    have hcvDA : ¬ gid cv ∈ skeys DA := fun h => hkAfresh _ h (by simp [s1, skeys])
     have hlcv : lookupS s2 (gid cv) = some .bool := by
       simp only [s2]; rw [lookupS_append_right hcvDA]; exact lookupS_cons_self _ _ _
     have hite : stmtOKT c ret s2 (.ite (.un .not .bool (.var (gid cv) .bool)) [.brk] none) = .ok s2 := by
@@ -707,16 +683,13 @@ theorem typedC {env : Env} {file : AFile} {G : List String} {c : TCtx} {D : Name
     have hsc2 : TScp s2 Γ := TScp.extend hsc1 (hctxc.extend hnew1) hkAfresh
     have hctx2 : SCtx file G D (skeys s2) Γ (calleesA (Γ.map (·.1)) b) := by
       rw [hks2]; exact (hctxb.extend hnew1).extend hkAD
-    have hdeclB : DeclOK D (skeys s2) rB.1 :=
-      ⟨hndBB, fun y hy => by
-        have := hin y (List.mem_append_right _ hy)
-        refine ⟨fun h => ?_, this.2⟩
-        rw [hks2] at h
-        rcases List.mem_append.mp h with h | h
-        · exact hdisjAB _ (hkA _ h) _ hy rfl
-        · rcases List.mem_cons.mp h with rfl | h
-          · exact hcvnd (List.mem_append_right _ hy)
-          · exact this.1 h⟩
+    have hdeclB : DeclOK D (skeys s2) rB.1 := by
+      refine sokB_anti _ (fun y h => ?_) hdeclB'
+      rw [hks2] at h
+      rw [scopeAfter_mem]
+      rcases List.mem_append.mp h with h | h
+      · exact Or.inr (hkA _ h)
+      · exact Or.inl h
     obtain ⟨DB, hseqB, _⟩ := typedA (ret := ret) hl b .effect rA.2 Γ K s2 hfb hsb hsc2 hctx2 (hB ▸ hdeclB) trivial trivial
     rw [hB] at hseqB
     have hbody : blockOKT c ret s1 (rA.1 ++ [GStmt.ite (.un .not .bool (.var (gid cv) .bool)) [.brk] none] ++ rB.1) = .ok () := by
@@ -828,41 +801,39 @@ theorem lookupTy_mem' {Γ : Ctx} {x : String} {t : Ty} (h : lookupTy Γ x = some
 theorem fn_typed {env : Env} {file : AFile} {G : List String} {c : TCtx} {st : St} {g : AFn} (hl : TLink file G c)
     (hlocal : localOK env file G st g = true) (hstd : stdFn g = true) : fnOKT c (compileFn env st g).1 = .ok () := by
   simp only [localOK, srcLocalOK, goLocalOK, Bool.and_eq_true, Bool.not_eq_true', compileFn_shape] at hlocal
-  obtain ⟨⟨⟨⟨hps, hrs⟩, hfrag⟩, hret⟩, ⟨⟨hnodup0, hblank⟩, hcallees⟩, hfnames⟩ := hlocal
+  obtain ⟨⟨⟨⟨hps, hrs⟩, hfrag⟩, hret⟩, ⟨⟨hscoped, hblank⟩, hcallees⟩, hfnames⟩ := hlocal
   simp only [stdFn, Bool.and_eq_true] at hstd
   obtain ⟨⟨hpstd, hrstd⟩, hbstd⟩ := hstd
-  have hnodup := of_decide_eq_true hnodup0
-  clear hnodup0
   have hret' := scalarEq_eq hret
   rw [compileFn_shape]
   generalize hrn : "ret" ++ toString st.n = retName at *
   generalize hst1 : (st.next.check (okTy g.ret)).check (g.params.all fun p => okTy p.2) = st1 at *
   generalize hS : (compileA env (.assign retName) st1 g.body).1 = S at *
-  have hlocals : ndLocals
+  simp only [scopedLocalsOK, Bool.and_eq_true, List.map_map, Function.comp_def] at hscoped
+  obtain ⟨hndP0, hsok⟩ := hscoped
+  have hndP : (g.params.map fun p => vn p.1).Nodup := of_decide_eq_true hndP0
+  have hlocalsD : Goml.Dce.localsOf
       { name := fnName g.name, params := g.params.map fun p => (vn p.1, goTy p.2), ret := some (goTy g.ret),
         body := .varDecl (gid retName) (goTy g.ret) none :: (S ++ [.ret (some (.var (gid retName) (goTy g.ret)))]) } =
-      (g.params.map fun p => vn p.1) ++ (gid retName :: ndDecls S) := by
-    simp [ndLocals, ndDecls_varDecl, ndDecls_append, ndDecls_ret, ndDecls, ndDeclsOf, List.map_map, Function.comp_def]
-  have hsubL : ∀ y, y ∈ (g.params.map fun p => vn p.1) ++ (gid retName :: ndDecls S) → y ∈ Goml.Dce.localsOf
-      { name := fnName g.name, params := g.params.map fun p => (vn p.1, goTy p.2), ret := some (goTy g.ret),
-        body := .varDecl (gid retName) (goTy g.ret) none :: (S ++ [.ret (some (.var (gid retName) (goTy g.ret)))]) } := by
-    intro y hy
-    rw [← hlocals] at hy
-    simp only [ndLocals, List.mem_append] at hy
-    simp only [Goml.Dce.localsOf, List.mem_append]
-    exact hy.imp id (ndDecls_sub _ y)
-  rw [hlocals] at hnodup
+      (g.params.map fun p => vn p.1) ++ (gid retName :: (Goml.Dce.allDecls S ++ [])) := by
+    simp [Goml.Dce.localsOf, Goml.Dce.allDecls, Goml.Dce.declsOf, allDecls_append, List.map_map, Function.comp_def]
   generalize hD : Goml.Dce.localsOf
       { name := fnName g.name, params := g.params.map fun p => (vn p.1, goTy p.2), ret := some (goTy g.ret),
         body := .varDecl (gid retName) (goTy g.ret) none :: (S ++ [.ret (some (.var (gid retName) (goTy g.ret)))]) } = D at *
-  obtain ⟨hndP, hndR, hdisjPR⟩ := List.nodup_append.mp hnodup
-  obtain ⟨hretS, hndS⟩ := List.nodup_cons.mp hndR
   have hnb : ¬ "_" ∈ D := by
     intro h; rw [List.contains_eq_mem] at hblank; simp [h] at hblank
-  have hPD : ∀ y, y ∈ (g.params.map fun p => vn p.1) → y ∈ D := fun y hy => hsubL y (List.mem_append_left _ hy)
-  have hRD : gid retName ∈ D := hsubL _ (List.mem_append_right _ List.mem_cons_self)
-  have hSD : ∀ y, y ∈ ndDecls S → y ∈ D := fun y hy => hsubL y (List.mem_append_right _ (List.mem_cons_of_mem _ hy))
-  have hretP : ¬ gid retName ∈ (g.params.map fun p => vn p.1) := fun h => hdisjPR _ h _ List.mem_cons_self rfl
+  have hPD : ∀ y, y ∈ (g.params.map fun p => vn p.1) → y ∈ D := fun y hy => by rw [hlocalsD]; exact List.mem_append_left _ hy
+  have hRD : gid retName ∈ D := by rw [hlocalsD]; exact List.mem_append_right _ List.mem_cons_self
+  have hsok' : DeclOK D (g.params.map fun p => vn p.1)
+      (.varDecl (gid retName) (goTy g.ret) none :: (S ++ [.ret (some (.var (gid retName) (goTy g.ret)))])) := by
+    refine sokB_weaken _ (fun y hy => ?_) hsok
+    have hyD : y ∈ D := by
+      rw [hlocalsD]; refine List.mem_append_right _ ?_
+      simpa [Goml.Dce.allDecls, Goml.Dce.declsOf, allDecls_append] using hy
+    have : y ≠ "_" := fun e => hnb (e ▸ hyD)
+    simp [declOKB, hyD, this]
+  obtain ⟨⟨hretP, -, -⟩, hdS⟩ := hsok'.varDecl
+  have hdecl0 : DeclOK D (gid retName :: g.params.map fun p => vn p.1) S := hdS.append.1
   -- scopes
   let s0 : Scp := g.params.map fun p => (vn p.1, goTy p.2)
   let s1 : Scp := (gid retName, goTy g.ret) :: s0
@@ -898,11 +869,7 @@ theorem fn_typed {env : Env} {file : AFile} {G : List String} {c : TCtx} {st : S
       simp only [Bool.and_eq_true, Bool.not_eq_true', List.contains_eq_mem, decide_eq_false_iff_not, bne_iff_ne] at this
       exact this
   have hdecl : DeclOK D (skeys s1) S := by
-    rw [hk1]
-    exact ⟨hndS, fun y hy => ⟨fun h => by
-        rcases List.mem_cons.mp h with rfl | h
-        · exact hretS hy
-        · exact hdisjPR _ h _ (List.mem_cons_of_mem _ hy) rfl, hSD y hy, fun e => hnb (e ▸ hSD y hy)⟩⟩
+    rw [hk1]; exact hdecl0
   have htgt : TgtSc (.assign retName) (paramCtx g) (skeys s1) := by
     rw [hk1]
     exact ⟨List.mem_cons_self, fun x t hx e => by
@@ -919,7 +886,7 @@ theorem fn_typed {env : Env} {file : AFile} {G : List String} {c : TCtx} {st : S
   have h1 : stmtOKT c (some (goTy g.ret)) s0 (.varDecl (gid retName) (goTy g.ret) none) = .ok s1 :=
     stmt_varDecl_none_ok c _ s0 (gid retName) hrstd
   have hlret : lookupS (Dl ++ s1) (gid retName) = some (goTy g.ret) := by
-    rw [lookupS_append_right (fun hk => hretS (hkD _ hk))]; exact lookupS_cons_self _ _ _
+    rw [lookupS_append_right (fun hk => (hdecl.top _ (hkD _ hk)).1 (by rw [hk1]; exact List.mem_cons_self))]; exact lookupS_cons_self _ _ _
   have hretst : stmtOKT c (some (goTy g.ret)) (Dl ++ s1) (.ret (some (.var (gid retName) (goTy g.ret)))) = .ok (Dl ++ s1) := by
     simp only [stmtOKT, tyOfT, hlret, R.bind, assignable_std c hrstd, if_true]
   have hbody : blockOKT c (some (goTy g.ret)) s0
